@@ -133,6 +133,7 @@ type task struct {
 	fn        func()
 	key       uint64
 	randReads int
+	label     string
 }
 
 // Sim is the state of the running simulation.
@@ -626,6 +627,14 @@ func TaskID() int {
 		return -1
 	}
 	return S.cur.id
+}
+
+// SetLabel tells the simulator what the running task is doing (used to make
+// race signatures specific to the operations involved).
+func SetLabel(l string) {
+	if s := S; s != nil && s.cur != nil {
+		s.cur.label = l
+	}
 }
 
 // Probe counts the occurrence of a named condition.
